@@ -326,6 +326,12 @@ def _impl_stim(case):
             res['zeros_kept'] = bool(len(y3) == len(y1) and np.array_equal(y3 == 0, y1 == 0))
             if len(y3) == len(y1) and len(y1):
                 res['y3'] = [float(y3[i]) for i in res.get('idx', _pick(len(y1)))]
+        P = case.get('par', {})
+        if case['type'] == 'tone_duration' or (case['type'] == 'sam_tone' and P.get('use_duration')):
+            # the seconds-based call is the sample-based call with samples = round(duration * fs)
+            twin = dict(case, type='tone' if case['type'] == 'tone_duration' else 'sam_tone',
+                        par=dict(P, use_duration=False, offset=0))
+            res['twin_equal'] = bool(np.array_equal(y1, np.asarray(_build(twin, L, pol), dtype=float)))
         res['level'] = _measure(case, y1)
         res['crest'] = float(np.max(np.abs(y1)) / np.sqrt(np.mean(y1 ** 2))) if len(y1) and np.any(y1) else None
         if case['type'] in ('bandlimited_noise', 'BandlimitedNoiseFactory'):
@@ -651,6 +657,8 @@ def _oracle_stim(case, res):
         if not res['neg_exact']:
             return f'{tag}: inverting the polarity does not negate every sample exactly'
     P = case.get('par', {})
+    if res.get('twin_equal') is False:
+        return f'{tag}: the duration-based call differs from the sample-based call with samples = round(duration * fs) = {P["n"]}'
     if t in ('chirp', 'ChirpFactory') and P.get('equalize') and P.get('mc') == 0 and P.get('window') == 'boxcar' \
             and P.get('weighting') in (None, 'nan') and case['cal'] and case['cal']['kind'] == 'interp':
         # max_correction = 0 dB clips every per-frequency scale factor to their mean: the equalized sweep has a flat envelope
